@@ -150,6 +150,8 @@ def check(ctx):
             "`define V2 (x) not_formals\n`V2\n", "`define W2(a = 1\\\n , b = 2\\\n ) a b\n`W2()\n", "`define X2(a=1,b=2 )a b\n`X2( , )\n",
             "`ifdef  A  \n`elsif\tB\t\n`else  \n`endif  \n", "`undef   X2  \n`undefineall  \n`resetall\t\n", "`timescale  1 ns  /  1 ps  \n",
             "`line  3  \"f.v\"  1  \n", "`default_nettype   none  \n", "`pragma  protect  begin , end = 1 \n", "`begin_keywords  \"1800-2017\"  \n`end_keywords  \n",
+            "`define F1 f\n`F1()\n", "`define GET g\n`GET ( \n )\n", "`define H1\n`H1()\n`H1 ( )\n", "`define K1(a) a\n`K1()\n`K1( )\n`K1(\n)\n",
+            "`define L1(a, b) a b\n`L1(,)\n`L1( , )\n", "`define M1 m\n`M1(())\n`M1([])\n`M1({})\n`M1(\"\")\n",
             "`include   \"nofile.svh\"   \n", "`define Y2(a = 1 ,\r\n b = 2 ) a b\r\n`Y2()\r\n", "`M3 ( 1 , 2 )\n", "`define Z2(a) a\n`Z2 (\n 1\n )\n`Z2( /* c */ )\n"]
     for j, t in enumerate(odd):
         for entry in ("preprocess", "parse_sv"):
